@@ -119,7 +119,13 @@ pub fn affine_case(cx: &mut Ctx, n: u64, case: &Value) {
             let (fx, fy, oo) = (f("fx"), f("fy"), o.unwrap());
             let mut m1 = poly.clone(); m1.scale_around_point_mut(fx, fy, oo);
             let mut m2 = poly.clone(); m2.scale_xy_mut(fx, fy);
-            vec![("scale_around_point", poly.scale_around_point(fx, fy, oo)), ("scale_around_point_mut", m1), ("scale_xy (bbox centre)", poly.scale_xy(fx, fy)), ("scale_xy_mut", m2)]
+            let mut v = vec![("scale_around_point", poly.scale_around_point(fx, fy, oo)), ("scale_around_point_mut", m1), ("scale_xy (bbox centre)", poly.scale_xy(fx, fy)), ("scale_xy_mut", m2)];
+            if fx == fy {
+                let mut m3 = poly.clone(); m3.scale_mut(fx);
+                v.push(("scale (uniform)", poly.scale(fx)));
+                v.push(("scale_mut (uniform)", m3));
+            }
+            v
         }
         "rotated" => {
             let (deg, oo) = (90.0 * f("q"), Point(o.unwrap()));
@@ -133,7 +139,13 @@ pub fn affine_case(cx: &mut Ctx, n: u64, case: &Value) {
             let (xs, ys, oo) = (45.0 * f("tx"), 45.0 * f("ty"), o.unwrap());
             let mut m1 = poly.clone(); m1.skew_around_point_mut(xs, ys, oo);
             let mut m2 = poly.clone(); m2.skew_xy_mut(xs, ys);
-            vec![("skew_around_point", poly.skew_around_point(xs, ys, oo)), ("skew_around_point_mut", m1), ("skew_xy (bbox centre)", poly.skew_xy(xs, ys)), ("skew_xy_mut", m2)]
+            let mut v = vec![("skew_around_point", poly.skew_around_point(xs, ys, oo)), ("skew_around_point_mut", m1), ("skew_xy (bbox centre)", poly.skew_xy(xs, ys)), ("skew_xy_mut", m2)];
+            if xs == ys {
+                let mut m3 = poly.clone(); m3.skew_mut(xs);
+                v.push(("skew (uniform)", poly.skew(xs)));
+                v.push(("skew_mut (uniform)", m3));
+            }
+            v
         }
         _ => vec![],
     };
